@@ -128,6 +128,9 @@ impl Connection {
         (old(self).local_state is Start || old(self).local_state is HeaderSent || old(self).local_state is HeaderReceived || old(self).local_state is HeaderExchange)
             ==> r == Err::<OutgoingChannel, AllocSessionError>(AllocSessionError::ConnectionNotOpened),              // [C12.no-session-before-open]
         (old(self).local_state is CloseSent || old(self).local_state is Discarding || old(self).local_state is End) ==> r is Err && r->Err_0 is ConnectionStopped,   // [C12.no-session-after-close]
+        !(old(self).local_state is Start || old(self).local_state is HeaderSent || old(self).local_state is HeaderReceived || old(self).local_state is HeaderExchange
+          || old(self).local_state is CloseSent || old(self).local_state is Discarding || old(self).local_state is End) ==> (r is Err ==> r->Err_0 is ChannelMaxReached)
+            && (old(self).session_by_outgoing_channel.spec_vacant_key() > old(self).agreed_channel_max ==> r is Err),       // [C17.channel-max.refusal-says-so] on an open connection a session is refused exactly when the next free channel lies above the agreed channel-max, and the application is told THAT (not "connection not opened")
         final(self).local_state == old(self).local_state && final(self).agreed_channel_max == old(self).agreed_channel_max
             && final(self).session_by_incoming_channel == old(self).session_by_incoming_channel
             && final(self).local_open == old(self).local_open && final(self).remote_open == old(self).remote_open,
